@@ -588,3 +588,147 @@ Theorem C03_sync_lock_ok :
     lock_ok r b ph (unlock_known r s).
 Proof. exact sync_lock_ok. Qed.
 Print Assumptions C03_sync_lock_ok.
+
+(* ================================================================== termination END TO END: what is true, what
+   is refuted (C03/TermLV.v, TermSim.v, TermValue.v).
+
+   (1) "A locked machine holds its locked block as its valid block" is NOT an invariant of the
+   (F70-repaired) code model.  One machine, 29 inputs from the initial state: locked on X with
+   LockedRound 6, valid block Y with ValidRound 2, not halted, at (1, 7, Propose); lock and valid
+   block both backed by polkas it holds; the unlock rule of the prevote step never releases this
+   lock (it only looks above round 6); SyncWeak.Inv' fails for every pol.  Finding F83:
+   handleCompleteProposal sets ValidBlock from the current round's polka without looking at the
+   lock, enterPrecommit re-locks (LockedRound := round) without updating ValidBlock - reachable
+   even at step Propose through a +2/3 precommit majority for nil. *)
+From TM Require Import C03.TermLV C03.TermSim C03.TermValue.
+
+Theorem C03_lock_on_other_than_valid_reachable :
+  exists (E : env) (ins : list input),
+    let s := fst (run E (init_state E 1 None) ins) in
+    let n := abs 10 s in
+    cs_halted s = false /\ (cs_height s, cs_round s, cs_step s) = (1, 7, SPropose) /\
+    n_lock n = Some (6, 5%N) /\ n_valid n = Some (2, 7%N) /\
+    (forall q, In q [(0, Some 5%N); (2, Some 7%N); (6, Some 5%N)] -> holds_polka s q) /\
+    (forall r, unlock_fires r s = false \/ exists r' x, 6 < r' <= r /\ o_maj23 (prevotes (cs_votes s) r') = Some x) /\
+    (forall pol, ~ Inv' pol [n]).
+Proof. exact lock_differs_from_valid_reachable. Qed.
+Print Assumptions C03_lock_on_other_than_valid_reachable.
+
+(* ... and the liveness consequence ON THE CODE MODEL: that machine (A), with two correct machines B
+   and C that are unlocked (each reachable from the initial state), all in round 7, the faulty
+   validator silent, proposers rotating A, B, C, D: sixteen synchronous rounds in sequence, closed
+   loop (TermSim.sync_round: the proposal the proposer's machine signed and its part to everybody,
+   propose timeout, all signed prevotes to everybody, prevote-wait timeout, all signed
+   precommits to everybody, precommit-wait timeout) - NO machine decides, A stays locked on X
+   with valid block Y (it proposes Y and prevotes X), everybody ends in round 23.  Replayed on three
+   real consensus.State nodes (work/deepen/C03b-replay): same outcome; with the proposed repair
+   fixes/F83 the same run decides in A's round 7. *)
+Theorem C03_livelock_on_model :
+  map view lv_net =
+    [ (0%nat, 1, 7, SPropose, (6, Some 5%N), (2, Some 7%N));
+      (1%nat, 1, 7, SPropose, (-1, None), (-1, None));
+      (2%nat, 1, 7, SPropose, (-1, None), (-1, None)) ] /\
+  any_decision (snd (sync_rounds w_vals sim_sig sim_peer 1 16 7 lv_net)) = false /\
+  map view (fst (sync_rounds w_vals sim_sig sim_peer 1 16 7 lv_net)) =
+    [ (0%nat, 1, 23, SPropose, (6, Some 5%N), (2, Some 7%N));
+      (1%nat, 1, 23, SPropose, (-1, None), (-1, None));
+      (2%nat, 1, 23, SPropose, (-1, None), (-1, None)) ].
+Proof. exact (conj lv_net_entry lv_livelock_16_rounds). Qed.
+Print Assumptions C03_livelock_on_model.
+
+(* at the value level the configuration is a FIXED POINT: Inv' fails, the unlock rule changes
+   nothing, every correct proposer proposes Y, no value and not nil reaches +2/3 among the correct
+   prevotes (proposal received by all, or no proposal), and any number of rounds in which no new
+   polka appears leaves the configuration exactly as it is: no round ever decides *)
+Theorem C03_livelock_value_level :
+  ~ Inv' f83_pol f83_nodes /\
+  (map (unlock f83_pol) f83_nodes = f83_nodes /\
+   (forall p fresh, In p f83_nodes -> proposal_of fresh (unlock f83_pol p) = 7%N) /\
+   (forall x, 3 * power_opt x (prevotes_of (Some 7%N) (combine f83_nodes [true; true; true])) <= 2 * 40) /\
+   (forall x, 3 * power_opt x (prevotes_of None (combine f83_nodes [true; true; true])) <= 2 * 40)) /\
+  (forall k r c', (forall q, In q f83_pol -> fst q < r) ->
+     sync_reach r k (f83_pol, f83_nodes) c' -> fst c' = f83_pol -> c' = (f83_pol, f83_nodes)).
+Proof. exact (conj f83_not_Inv' (conj f83_no_quorum f83_livelock)). Qed.
+Print Assumptions C03_livelock_value_level.
+
+(* (2) value level: the hypothesis step_inv of C03_termination_partial DISCHARGED for a concrete
+   synchronous round that includes the non-deciding outcomes (TermValue.sync_step: unlock rule,
+   any proposal to any subset of the nodes, ANY polka the adversary can produce or none, lock /
+   re-lock / unlock and valid-block update as the code does them, the re-lock WITHOUT valid-block
+   update included): Inv' is preserved.  (Inv' at the entry is what an asynchronous prefix can
+   break - (1); within synchronous rounds the re-lock is harmless because the unlock rule has been
+   applied with all polkas first.) *)
+Theorem C03_sync_round_preserves_invariant :
+  forall (r : Z) (c c' : config), Inv' (fst c) (snd c) -> sync_step r c c' -> Inv' (fst c') (snd c').
+Proof. exact sync_step_preserves_Inv'. Qed.
+Print Assumptions C03_sync_round_preserves_invariant.
+
+(* (3) termination, value level, no hypothesis on the rounds in between: from any configuration
+   satisfying Inv', after ANY k synchronous rounds, the next round decides (all correct nodes
+   prevote the proposal, +2/3 from them alone) as soon as its proposer is a correct node that is
+   still locked after the unlock rule - or any correct node when nobody is.  So the bound is the
+   proposer rotation reaching such a node (C08_proposer_window), NOT the first correct proposer:
+   C03_first_correct_proposer_may_waste. *)
+Theorem C03_termination_value_level :
+  forall (r0 : Z) (k : nat) (c c' : config) (proposer : node) (fresh : value) (total faulty_power : Z),
+    Inv' (fst c) (snd c) -> sync_reach r0 k c c' -> In proposer (snd c') ->
+    total = Sync.total_power (snd c') + faulty_power -> 0 <= faulty_power -> 3 * faulty_power < total ->
+    ((forall n, In n (map (unlock (fst c')) (snd c')) -> n_lock n = None) \/
+     (exists lr lv, n_lock (unlock (fst c') proposer) = Some (lr, lv))) ->
+    (exists star, is_latest (fst c') star) ->
+    let prop := proposal_of fresh (unlock (fst c') proposer) in
+    (forall n, In n (map (unlock (fst c')) (snd c')) -> prevote_of prop n = prop) /\
+    3 * power_for prop (map (fun n => (n, prevote_of prop n)) (map (unlock (fst c')) (snd c'))) > 2 * total.
+Proof. exact termination_value_level. Qed.
+Print Assumptions C03_termination_value_level.
+
+(* a round without polka only applies the unlock rule (so locks persist until the rotation
+   reaches a locked node) *)
+Theorem C03_quiet_round_only_unlocks :
+  forall (r : Z) (pol : list polka) (nodes : list node) (c' : config),
+    sync_step r (pol, nodes) c' -> fst c' = pol ->
+    c' = (pol, map (unlock pol) nodes) \/ exists x, fst c' = (r, x) :: pol.
+Proof. exact quiet_round_only_unlocks. Qed.
+Print Assumptions C03_quiet_round_only_unlocks.
+
+Theorem C03_first_correct_proposer_may_waste :
+  Inv' fw_pol fw_nodes /\
+  (let prop := proposal_of 9%N (unlock fw_pol fw_B) in
+   prop = 9%N /\ forall v, 3 * power_for v (map (fun n => (n, prevote_of prop n)) (map (unlock fw_pol) fw_nodes)) <= 2 * 40) /\
+  (let prop := proposal_of 9%N (unlock fw_pol fw_A) in
+   prop = 5%N /\ 3 * power_for prop (map (fun n => (n, prevote_of prop n)) (map (unlock fw_pol) fw_nodes)) > 2 * 40).
+Proof. exact first_correct_proposer_may_waste. Qed.
+Print Assumptions C03_first_correct_proposer_may_waste.
+
+(* the same ON THE CODE MODEL, rounds in sequence ending in a decision (TermSim.sync_rounds, closed
+   loop with the timeouts): A locked on X in round 0, B and C unlocked (each machine's run from
+   the initial state), D silent; round 1 (proposer B, new block) and round 2 (proposer C, new
+   block) end by the timeouts without polka, everybody enters the next round; round 3 (proposer A
+   re-proposes X with POL round 0): every machine decides X in round 3 *)
+Theorem C03_rounds_in_sequence_on_model :
+  map view fw_net =
+    [ (0%nat, 1, 1, SPropose, (0, Some 5%N), (0, Some 5%N));
+      (1%nat, 1, 1, SPropose, (-1, None), (-1, None));
+      (2%nat, 1, 1, SPropose, (-1, None), (-1, None)) ] /\
+  let os := snd (sync_rounds w_vals sim_sig sim_peer 1 3 1 fw_net) in
+  let l := fst (sync_rounds w_vals sim_sig sim_peer 1 3 1 fw_net) in
+  map all_decide_in os = [false; false; true] /\
+  map (fun rd => existsb (fun o => existsb decides o) rd) os = [false; false; true] /\
+  map (map signed_votes) (firstn 2 os) =
+    [ [ [(PREVOTE, 1, Some 5%N); (PRECOMMIT, 1, None)]; [(PREVOTE, 1, Some 101%N); (PRECOMMIT, 1, None)]; [(PREVOTE, 1, Some 101%N); (PRECOMMIT, 1, None)] ];
+      [ [(PREVOTE, 2, Some 5%N); (PRECOMMIT, 2, None)]; [(PREVOTE, 2, Some 102%N); (PRECOMMIT, 2, None)]; [(PREVOTE, 2, Some 102%N); (PRECOMMIT, 2, None)] ] ] /\
+  map (fun x => cs_height (m_state (fst x))) l = [2; 2; 2] /\
+  forallb (fun o => existsb (fun x => match x with ODecide 1 3 5%N => true | _ => false end) o) (nth 2 os []) = true.
+Proof. exact (conj fw_net_entry fw_first_correct_proposer_wastes_third_decides). Qed.
+Print Assumptions C03_rounds_in_sequence_on_model.
+
+(* non-vacuity of the value-level round relation: two rounds from the configuration of
+   C03_first_correct_proposer_may_waste (no polka; then a polka for the correct proposer's value
+   completed by the faulty validator): all three nodes end locked on it *)
+Example C03_sync_reach_nonvacuous :
+  sync_reach 1 2 (fw_pol, fw_nodes)
+             ([(2, Some 8%N); (0, Some 5%N)],
+              [ {| n_power := 10; n_lock := Some (2, 8%N); n_valid := Some (2, 8%N) |};
+                {| n_power := 10; n_lock := Some (2, 8%N); n_valid := Some (2, 8%N) |};
+                {| n_power := 10; n_lock := Some (2, 8%N); n_valid := Some (2, 8%N) |} ]).
+Proof. exact fw_two_rounds. Qed.
